@@ -20,8 +20,9 @@ import common, ceremony
 from ceremony import *
 
 PROP = "C11"
-COQ_TARGETS = ["theories/Auth/ClientCheck.vo", "theories/Auth/C11Facts.vo"]
-HARNESS_BINS = ceremony.HARNESS_BINS
+COQ_TARGETS = ["theories/Auth/ClientCheck.vo", "theories/Auth/C11Facts.vo", "theories/Auth/U2fCheck.vo", "theories/Auth/U2fFacts.vo"]
+import c17cer
+HARNESS_BINS = ceremony.HARNESS_BINS + c17cer.HARNESS_BINS
 replay = ceremony.replay
 EXTRA = "From PK Require Import Auth.C11Facts.\n"
 UNSUPPORTED_OPTION = 0x2B
@@ -439,3 +440,6 @@ def check(run):
         "c11_cred_props_truthful assumes the store's capability answer is the same at every query of one run (get_info() of every shipped "
         "store is a pure function); c11_cred_props_general is the statement without it, Example c11_capability_must_be_constant shows it is needed",
         "the observed runs confirm the hypothesis for the harness' stores (oracle: capability answers within one ceremony are equal)"]
+    # credentials created through the U2F entry point are new credentials too (rk = false): the storage rule applies
+    import c17cer
+    run.cov["u2f_ceremonies"] = {k: v for k, v in c17cer.check_ceremony(run, tag="C11-u2f").items() if k not in ("sample", "rule")}
